@@ -94,6 +94,9 @@ def timing_cases(draw):
     # originates itself (respond flag set; the client must echo them, and they prove the server alive just as well)
     return {'echo': False, 'L': L, 'P': P, 'gaps': gaps, 'silent': silent, 'msg': draw(st.booleans()),
             'server_originated': respond_acks,
+            # the silence begins with the client's writes failing while its read side neither fails nor ends (a half-open
+            # connection): the sender task ends, the silence still has to be noticed
+            'write_fault': silent and draw(st.sampled_from([False, False, True])),
             # the handler that receives on_keepalive_timeout is given to the constructor, or installed k loop iterations
             # after connect() returned
             'late_handler': draw(st.sampled_from([0, 0, 0, 1, 3, 6]))}
@@ -113,6 +116,8 @@ def judge_timing(case):
                                  'data': b''}])
         ops.append(['tick', 2])
     ops.append(['mark', 'last_ack'])
+    if case.get('write_fault'):
+        ops.append(['writefail', 'c'])
     if case['silent']:
         ops.append(['adv', 2.2 * L])
     else:
@@ -153,6 +158,10 @@ def judge_timing(case):
     if bad:
         out.append(viol('keepalive_period_wrong', 'C15:period', P_ms=P, gap_ms=round((bad[1] - bad[0]) * 1000, 6)))
     end_t = first_timeout_t if first_timeout_t is not None else marks['end']['t']
+    if case.get('write_fault'):
+        # nothing can be written after the fault: the emission count is judged up to that moment
+        end_t = marks['last_ack']['t']
+        times = [t for t in times if t < end_t]
     connect_t = next((e['t'] for e in tr.world.log if e['ev'] == 'transport_connect_end'), t0)
     expected = int((end_t - connect_t) / (P / 1000.0) + 1e-9)
     if abs(len(times) - expected) > 1:
@@ -167,7 +176,7 @@ def judge_timing(case):
         out.append(viol('unhandled_exception', 'C15:loop_error:%s' % err.get('type'), **err))
     return out, case['silent'], ['part=timing', 'silent_end=%s' % case['silent'], 'P>L=%s' % (case['P'] > case['L']),
                                  'arriving=%s' % ('server_keepalives' if case.get('server_originated') else 'acknowledgements'),
-                                 'gaps=%d' % len(case['gaps'])]
+                                 'gaps=%d' % len(case['gaps']), 'half_open=%s' % bool(case.get('write_fault'))]
 
 
 @st.composite
